@@ -168,3 +168,48 @@ class Coverage:
             r = self.cover_over(fname)
         self._exact[fname] = r
         return r
+
+
+def data_return_ranges(prog):
+    """Ranges of the functions whose every return is either the failure sentinel 0 or one cell T[Z] of a table that is
+    filled from a (Z, value) data file: {function name: Interval hull of the file's values and 0}.  The shape of the
+    function is decided on its abstract paths, the hull comes from the data file of the current tree."""
+    import re as _re
+    from .absint import run_function, Interval
+    from fractions import Fraction as _F
+    out = {}
+    data = DataFacts(prog)
+    for tname, (fn, kind) in GUARD_TABLES.items():
+        if kind != 'pairs':
+            continue
+        for f in prog.src_funcs():
+            if f['unit'].startswith('src/') is False or len(f.get('params', [])) != 2 or f['ret'] != 'double':
+                continue
+            if not any(n.get('k') == 'DeclRefExpr' and n.get('name') == tname for n in walk_body(f)):
+                continue
+            try:
+                it, paths = run_function(prog, f)
+            except Exception:
+                continue
+            ok = bool(paths)
+            z = f['params'][0]['name']
+            for p in paths:
+                if p.ret is None:
+                    ok = False
+                elif it.is_zero(p.ret, p):
+                    continue
+                elif p.ret.canon() != '%s[%s]' % (tname, z):
+                    ok = False
+            if not ok:
+                continue
+            vals = [v for v in data.table(tname).values() if v != OUTD]
+            if not vals:
+                continue
+            lo, hi = min(vals + [0.0]), max(vals + [0.0])
+            out[f['name']] = Interval(_F(lo).limit_denominator(10 ** 9), _F(hi).limit_denominator(10 ** 9))
+    return out
+
+
+def walk_body(f):
+    from .facts import walk as _walk
+    return _walk(f.get('body') or {})
